@@ -112,18 +112,20 @@ class Message:
         if not code_and_vendor:
             return []
 
+        if alt_list is not None:
+            return _traverse_avp_tree(alt_list, list(code_and_vendor))
+
         path = "/".join(f"{c}_{v}" for c, v in code_and_vendor)
         if path in self.__find_cache:
             return self.__find_cache[path]
 
-        avp_list = self.avps
-        if alt_list is not None:
-            avp_list = alt_list
-
-        result = _traverse_avp_tree(avp_list, list(code_and_vendor))
+        result = _traverse_avp_tree(self.avps, list(code_and_vendor))
         self.__find_cache[path] = result
 
         return result
+
+    def _reset_find_cache(self):
+        self.__find_cache = {}
 
     @classmethod
     def type_factory(cls, header: MessageHeader) -> Type[_AnyMessageType] | None:
@@ -250,10 +252,12 @@ class Message:
     @avps.setter
     def avps(self, new_avps: list[Avp]):
         self._avps = new_avps
+        self._reset_find_cache()
 
     def append_avp(self, avp: Avp):
         """Add an AVP to the internal list of AVPs."""
         self._avps.append(avp)
+        self._reset_find_cache()
 
 
 class MessageHeader:
@@ -403,10 +407,12 @@ class DefinedMessage(Message):
     def avps(self, new_avps: list[Avp]):
         """Overwrites the list of custom AVPs."""
         self._additional_avps = new_avps
+        self._reset_find_cache()
 
     def append_avp(self, avp: Avp):
         """Add an individual custom AVP."""
         self._additional_avps.append(avp)
+        self._reset_find_cache()
 
 
 class UndefinedGroupedAvp:
